@@ -1,4 +1,4 @@
-(* Mirror of socketwrapper.SocketWrapper: _recv, read, readline, dechunk (as repaired).  No proofs. *)
+(* Mirror of socketwrapper.SocketWrapper: _recv, read, readline, dechunk (as repaired, twice).  No proofs. *)
 From Coq Require Import NArith ZArith List Bool.
 From Coq.Strings Require Import Byte.
 From PyRtcm Require Import Base.Bytes Model.Types Model.Reader.
@@ -43,8 +43,9 @@ Variable dz : bytes -> bytes.           (* per-chunk decompression incl. its err
 
 Inductive dres := DOk (chunks partial:bytes) | DUnm.
 
-(* dechunk(segment): fuel = length of segment + 1 *)
-Fixpoint dechunk_loop (fuel:nat) (ins:bytes) (chunks:bytes) : dres :=
+(* dechunk(segment): fuel = length of segment + 1; seglen = len(segment), the cap of the chunk read
+   (chunk = instream.read(min(chunk_length, len(segment)))) *)
+Fixpoint dechunk_loop (seglen:nat) (fuel:nat) (ins:bytes) (chunks:bytes) : dres :=
   match fuel with
   | O => DUnm
   | S f =>
@@ -55,15 +56,14 @@ Fixpoint dechunk_loop (fuel:nat) (ins:bytes) (chunks:bytes) : dres :=
       | IUnmodelled => DUnm
       | IVal 0%N => DOk chunks []
       | IVal n =>
-          if (2^62 <=? n)%N then DUnm else
-          let k := N.to_nat n in
+          let k := N.to_nat (N.min n (N.of_nat seglen)) in
           let chunk := firstn k r1 in
           let '(term, r3) := upto_lf (skipn k r1) in
-          if negb (Nat.eqb (length chunk) k) || negb (ends_lf term) then DOk chunks (lb ++ chunk ++ term)
-          else dechunk_loop f r3 (chunks ++ dz chunk)
+          if negb (N.eqb (N.of_nat (length chunk)) n) || negb (ends_lf term) then DOk chunks (lb ++ chunk ++ term)
+          else dechunk_loop seglen f r3 (chunks ++ dz chunk)
       end
   end.
-Definition dechunk (segment:bytes) : dres := dechunk_loop (S (length segment)) segment [].
+Definition dechunk (segment:bytes) : dres := dechunk_loop (length segment) (S (length segment)) segment [].
 
 Record sock := { buf : bytes; partial : bytes; evs : list recv_ev; unm : bool }.
 
